@@ -85,6 +85,16 @@ func cgen(args []string) {
 		}
 	}
 	bodies = append(bodies, small...)
+	nTerm := 250
+	if *tier == "thorough" {
+		nTerm = 2500
+	}
+	{
+		r := rand.New(rand.NewSource(*seed + 17))
+		for i := 0; i < nTerm; i++ {
+			bodies = append(bodies, mg.TermRandom(r, 1+r.Intn(3)))
+		}
+	}
 	r := rand.New(rand.NewSource(*seed))
 	for i := 0; i < nRandom; i++ {
 		o := mg.GenOpts{MaxDepth: 1 + r.Intn(3), MaxLen: 2 + r.Intn(3), Switch: r.Intn(3) != 0, Panics: r.Intn(4) == 0}
@@ -121,7 +131,7 @@ func cgen(args []string) {
 	pf.Close()
 	rf.Close()
 	st := map[string]any{"programs": n, "corpus": nCorpus, "small_exhaustive": len(small), "small_depth": depth,
-		"small_width": width, "random": nRandom}
+		"small_width": width, "random": nRandom, "termination_family": nTerm}
 	b, _ := json.MarshalIndent(st, "", " ")
 	os.WriteFile(filepath.Join(*out, "gen_stats.json"), b, 0o644)
 }
